@@ -26,6 +26,8 @@ pub enum Sym {
     WvNaN,
     WvInf,
     WvNeg,
+    WvNegZero,
+    WvTinyNeg,
     WvdPlain,
     WvdPts2,
     WvdB,
@@ -33,6 +35,7 @@ pub enum Sym {
     WvdBack,
     WvdNaN,
     WvdNeg,
+    WvdNegZero,
     WvdGap,
     WvdHalfGap,
     WvdAlmostHalfGap,
@@ -54,6 +57,7 @@ pub enum Sym {
     WaEmpty,
     WaNaN,
     WaNeg,
+    WaNegZero,
     EvKey,
     EvDelta,
     EvEmpty,
@@ -86,10 +90,13 @@ pub const FULL: &[Sym] = &[
     Sym::WvNaN,
     Sym::WvInf,
     Sym::WvNeg,
+    Sym::WvNegZero,
+    Sym::WvTinyNeg,
     Sym::WvdEqual,
     Sym::WvdBack,
     Sym::WvdNaN,
     Sym::WvdNeg,
+    Sym::WvdNegZero,
     Sym::WvdGap,
     Sym::WvdHalfGap,
     Sym::WvdAlmostHalfGap,
@@ -109,6 +116,7 @@ pub const FULL: &[Sym] = &[
     Sym::WaEmpty,
     Sym::WaNaN,
     Sym::WaNeg,
+    Sym::WaNegZero,
     Sym::EvKey,
     Sym::EvDelta,
     Sym::EvEmpty,
@@ -275,6 +283,16 @@ pub fn concretize(sym: Sym, step: usize, m: &Contract, fx: &Fixtures) -> Op {
             let (d, k) = ordinary(m);
             wv(-1.0, d, k)
         }
+        // negative zero is finite and not less than zero: a legal first timestamp (tick 0)
+        Sym::WvNegZero => {
+            let (d, k) = ordinary(m);
+            wv(-0.0, d, k)
+        }
+        // a nanosecond before zero rounds to tick 0 but is negative
+        Sym::WvTinyNeg => {
+            let (d, k) = ordinary(m);
+            wv(-1e-9, d, k)
+        }
         Sym::WvdPlain => {
             let (d, k) = ordinary(m);
             wvd(next, next, d, k)
@@ -307,6 +325,10 @@ pub fn concretize(sym: Sym, step: usize, m: &Contract, fx: &Fixtures) -> Op {
         Sym::WvdNeg => {
             let (d, k) = ordinary(m);
             wvd(next, -1.0, d, k)
+        }
+        Sym::WvdNegZero => {
+            let (d, k) = ordinary(m);
+            wvd(-0.0, -0.0, d, k)
         }
         Sym::WvdGap => {
             let (d, k) = ordinary(m);
@@ -372,6 +394,7 @@ pub fn concretize(sym: Sym, step: usize, m: &Contract, fx: &Fixtures) -> Op {
         Sym::WaEmpty => wa(a_base + 0.02, &fx.empty),
         Sym::WaNaN => wa(f64::NAN, &fx.audio_ok[i]),
         Sym::WaNeg => wa(-1.0, &fx.audio_ok[i]),
+        Sym::WaNegZero => wa(-0.0, &fx.audio_ok[i]),
         Sym::EvKey => Op::EV { data: fx.key_cfg[i].clone(), dur_ms: 33 },
         Sym::EvDelta => Op::EV { data: fx.delta[i].clone(), dur_ms: 40 },
         Sym::EvEmpty => Op::EV { data: fx.empty.clone(), dur_ms: 33 },
